@@ -14,7 +14,7 @@ from cpverif import c18_oracle as O
 from cpverif import core
 from cpverif import spec as S
 from cpverif import strategies as G
-from cpverif.core import Ctx, Part, custom_part, hyp_part
+from cpverif.core import Ctx, Part, custom_part, enum_part, hyp_part
 
 RULE = (
     "Three generators share one oracle. part mutations: Hypothesis sequences of 1..8 edits applied to a "
@@ -317,7 +317,27 @@ def _work_dir() -> str:
     return core.work_dir()
 
 
+def corner_cases(ctx: Ctx):
+    """A handful of hand-written well-formed charts at corners that random mutation reaches only by luck: every
+    time of a track is zero (resolution 10^7: ticks 0, 1, 2 all round to 0 us), tracks of one note, of notes
+    on one tick only, of zero-length everything, sections without a body; each must parse and render."""
+    def chart(res, sync, events, tracks):
+        return S.render({"res": res, "sync": sync, "events": events, "tracks": tracks})
+    base_sync = [[0, "TS", 4], [0, "B", 120000]]
+    yield {"text": chart(10 ** 7, base_sync, [[0, "section a"], [1, "lyric b"]],
+                         {"ExpertSingle": [[0, "N", 0, 0], [1, "N", 1, 0], [2, "N", 2, 0], [2, "S", 2, 0], [2, "E", "solo"]],
+                          "HardSingle": [[0, "N", 0, 0], [0, "N", 1, 0]]})}
+    yield {"text": chart(99999999, [[0, "TS", 4], [0, "B", 99999999]], [],
+                         {"EasyDrums": [[0, "N", 0, 1], [1, "N", 1, 1], [3, "N", 7, 2]], "MediumKeyboard": []})}
+    yield {"text": chart(192, base_sync, [], {"ExpertSingle": [[0, "N", 7, 0]], "ExpertDoubleBass": [[0, "S", 2, 0]],
+                                               "ExpertGHLGuitar": [[0, "E", "x"]], "ExpertDrums": []})}
+    yield {"text": chart(1, [[0, "TS", 0, 0], [0, "B", 1]], [[0, ""]], {"EasySingle": [[0, "N", 0, 0], [0, "N", 6, 0]]})}
+    yield {"text": chart(192, base_sync + [[0, "A", 0]], [[0, "lyric "], [0, "section "]],
+                         {h: [[0, "N", 0, 0], [0, "N", 1, 0]] for h in ("EasySingle", "EasyDoubleBass", "EasyDrums")})}
+
+
 PARTS: list[Part] = [
+    enum_part("corners", corner_cases, check_assembled, {"quick": 1, "thorough": 1}),
     hyp_part("mutations", strat_mutations, check_mutation, {"quick": 900, "thorough": 10000},
              {"quick": 6, "thorough": 16}),
     hyp_part("assembled", strat_assembled, check_assembled, {"quick": 900, "thorough": 10000},
